@@ -930,6 +930,36 @@ def check_validator(ctx, n):
                                 % obs['escaped'][:300], 'escape:%s' % ':'.join(obs['escaped'].split(': ')[:2]))
 
 
+def check_validator_b(ctx, n):
+    """A sample of boundary plans under `wsgiref.validate.validator` (a second, independent reading of the WSGI
+    rules).  The validator insists on one close() and on iterating to the end; items that are not byte strings are
+    left to the plain stream (finding F3 would trip the validator's own assertion)."""
+    import warnings
+    from wsgiref.validate import validator
+    with warnings.catch_warnings():
+        warnings.simplefilter('ignore')
+        for i in range(n):
+            plan = bd.gen_b_plan(ctx.rng) if i % 3 else bd.gen_r_plan(ctx.rng)
+            plan['closes'], plan['reads'] = 1, None
+            if plan['k'] == 'b':
+                plan['body']['items'] = plan['body']['items'].replace('s', 'b').replace('i', 'b')
+            obs = bd.run_real(plan, app_wrapper=validator)
+            line = bd.plan_line(plan)
+            ctx.case({'bplan': line, 'validator': True}, nontrivial=True, key='validator ' + line)
+            ctx.count('stream:validator-boundary')
+            if obs['hang']:
+                ctx.oracle_fail({'bplan': plan, 'validator': True}, 'the application never answered (%s)' % obs['hang'],
+                                'hang:%s' % obs['hang'].split(':')[0])
+                return
+            if obs['escaped'] and 'AssertionError' in obs['escaped']:
+                ctx.oracle_fail({'bplan': plan, 'validator': True},
+                                'wsgiref.validate complains: %s' % obs['escaped'][:300],
+                                'wsgi_validator:%s' % ' '.join(obs['escaped'].split(': ', 2)[-1].split()[:6]))
+            elif obs['escaped']:
+                ctx.oracle_fail({'bplan': plan, 'validator': True}, 'exception escaped under the validator: %s'
+                                % obs['escaped'][:300], 'escape:%s' % ':'.join(obs['escaped'].split(': ')[:2]))
+
+
 def corpus_plans():
     d = os.path.join(common.CORPUS, PROPERTY)
     out = []
@@ -998,6 +1028,9 @@ def _run(ctx):
     if _stop(ctx):
         return
     check_validator(ctx, ctx.budget(500, 20000))
+    if _stop(ctx):
+        return
+    check_validator_b(ctx, ctx.budget(400, 15000))
 
 
 def search(ctx, around=None):
@@ -1037,6 +1070,17 @@ def replay(ctx, case):
         for what, sig in oracle_environ(c, obs):
             print('oracle :', sig, '-', what)
             ctx.oracle_fail(case, what, sig)
+        return
+    if 'bplan' in case and case.get('validator'):
+        import warnings
+        from wsgiref.validate import validator
+        with warnings.catch_warnings():
+            warnings.simplefilter('ignore')
+            obs = bd.run_real(case['bplan'], app_wrapper=validator)
+        print('plan   :', bd.plan_line(case['bplan']))
+        print('impl   : (under wsgiref.validate) escaped=%s hang=%s' % (obs['escaped'], obs['hang']))
+        if obs['escaped'] or obs['hang']:
+            ctx.oracle_fail(case, 'under wsgiref.validate: %s' % (obs['escaped'] or obs['hang'])[:300], 'wsgi_validator')
         return
     if 'bplan' in case:
         plan = case['bplan']
